@@ -156,6 +156,17 @@ fn do_action(this: &Node, act: Act, target: u8) {
         Act::ClearSlot0 => {
             put(&this.s0, None);
         }
+        Act::AllocAuto => {
+            #[cfg(feature = "auto-collect")]
+            let _ = crate::config::config(|c| c.set_auto_collect(true));
+            let e0 = crate::state::state(|s| crate::state::verif_proofs::snap(s)).execs;
+            let c = Cc::new(Leaf(9));
+            let e1 = crate::state::state(|s| crate::state::verif_proofs::snap(s)).execs;
+            g().collect_calls_in_cb += (e1 - e0) as u16;
+            #[cfg(feature = "auto-collect")]
+            let _ = crate::config::config(|c| c.set_auto_collect(false));
+            drop(c);
+        }
         Act::ReleaseHeld => unsafe {
             let h = HELD[target as usize % MAX_OBJ].take();
             drop(h);
